@@ -320,14 +320,29 @@ func (c *Client) Send(packet stanza.Packet) error {
 
 	// Store stanza as non-acked as part of stream management
 	// See https://xmpp.org/extensions/xep-0198.html#scenarios
+	// Acknowledgement requests and answers are not stanzas: they are neither stored nor counted.
 	if c.config.StreamManagementEnable {
-		if _, ok := packet.(stanza.SMRequest); !ok {
-			toStore := stanza.UnAckedStz{Stz: string(data)}
-			c.Session.SMState.UnAckQueue.Push(&toStore)
+		switch packet.(type) {
+		case stanza.SMRequest, *stanza.SMRequest, stanza.SMAnswer, *stanza.SMAnswer:
+		default:
+			return c.sendAndStore(string(data))
 		}
 	}
 
 	return c.sendWithWriter(c.transport, data)
+}
+
+// sendAndStore stores a stanza as non-acked and writes it to the server. Both are done under the queue lock, so
+// that the order of the queue is the order on the wire, also with concurrent senders.
+func (c *Client) sendAndStore(stz string) error {
+	uaq := c.Session.SMState.UnAckQueue
+	if uaq == nil {
+		return c.sendWithWriter(c.transport, []byte(stz))
+	}
+	uaq.Lock()
+	defer uaq.Unlock()
+	uaq.Push(&stanza.UnAckedStz{Stz: stz})
+	return c.sendWithWriter(c.transport, []byte(stz))
 }
 
 // SendIQ sends an IQ set or get stanza to the server. If a result is received
@@ -362,8 +377,7 @@ func (c *Client) SendRaw(packet string) error {
 	// Store stanza as non-acked as part of stream management
 	// See https://xmpp.org/extensions/xep-0198.html#scenarios
 	if c.config.StreamManagementEnable {
-		toStore := stanza.UnAckedStz{Stz: packet}
-		c.Session.SMState.UnAckQueue.Push(&toStore)
+		return c.sendAndStore(packet)
 	}
 	return c.sendWithWriter(c.transport, []byte(packet))
 }
